@@ -350,12 +350,14 @@ def fingerprint(doc):
   ))
 
 
-def _canon_el(e):
+def _canon_el(e, rendered_only=False):
+  """rendered_only: content subtrees without any text or line break generate no areas (their
+  backgrounds included), so they are left out when two snapshots are compared for rendering."""
   return (
     type(e).__name__, e.get_id(), e.get_lang(), e.get_space().name,
     sorted((p.__name__, repr(e.get_style(p))) for p in e.iter_styles()),
     e.get_text() if isinstance(e, m.Text) else None,
-    [_canon_el(c) for c in e],
+    [_canon_el(c, rendered_only) for c in e if not rendered_only or has_glyphs(c)],
   )
 
 
@@ -366,7 +368,7 @@ def canon_isd(isd, drop_nonpainting=False):
   for r in isd.iter_regions():
     if drop_nonpainting and not has_glyphs(r) and not paints(r):
       continue
-    regs.append(_canon_el(r))
+    regs.append(_canon_el(r, drop_nonpainting))
   return (repr(isd.get_active_area()), repr(isd.get_cell_resolution()), repr(isd.get_px_resolution()), str(isd.get_display_aspect_ratio()), isd.get_lang(), regs)
 
 
